@@ -92,6 +92,61 @@ def h_loop_case(cfg: int, pmax: int, bi: int, be: int, bs: int, bt: int, tq: int
     return reach(_verdict(w, budgets, result, True))
 
 
+def h_loop_random(cfg: int, pmax: int, bi: int, be: int, bs: int, bt: int, tq: int, xk: int, p: int,
+                  k0: int, s0: int, k1: int, s1: int, k2: int, s2: int, k3: int, s3: int) -> bool:
+    """
+    pre: 0 <= cfg <= 15 and 1 <= bi <= 4 and 1 <= be <= 6 and 1 <= bs <= 8 and 1 <= bt <= 2 and 0 <= tq <= 5
+    pre: 0 <= p <= pmax <= 4 and 0 <= xk <= 4
+    pre: 0 <= k0 <= 3 and 0 <= k1 <= 3 and 0 <= k2 <= 3 and 0 <= k3 <= 3
+    pre: 0 <= s0 <= 3 and 0 <= s1 <= 3 and 0 <= s2 <= 3 and 0 <= s3 <= 3
+    post: _
+    """
+    # feedback-directed random generation (RandomAlgorithm): the real generate_tests loop; one step
+    # (generate_sequence) is scripted: kind 0 raises ConstructionFailedException, 1 raises GenerationException,
+    # 2 discards a duplicate (nothing executed), 3 executes and keeps a test of s statements that covers nothing;
+    # after the script every step produces a test that covers everything
+    from pynguin.utils.exceptions import ConstructionFailedException, GenerationException
+
+    budgets = _budgets(cfg, bi, be, bs, bt)
+    script = [(k0, s0), (k1, s1), (k2, s2), (k3, s3)][:p]
+    w = S.World(tick_exec_ns=tq * 250_000_000)
+    fake = S.FakeTime(w)
+    sc_mod.time = fake
+    ga_mod.time = fake
+    try:
+        algo, ex = S.build(config.Algorithm.RANDOM, budgets, [], w, direct=True, opaque_k=xk)
+        calls = [0]
+
+        def step(test_chromosome, failing_test_chromosome):
+            w.act("factory")
+            i = calls[0]
+            calls[0] += 1
+            kind, stmts = script[i] if i < len(script) else (4, 1)
+            if kind == 0:
+                raise ConstructionFailedException("scripted")
+            if kind == 1:
+                raise GenerationException("scripted")
+            if kind == 2:
+                return
+            test = S.tcc.TestCaseChromosome(S.StubTC(stmts, kind == 4, kind == 4))
+            test.set_last_execution_result(ex.execute(test.test_case))
+            test.changed = False
+            test_chromosome.add_test_case_chromosome(test)
+
+        algo.generate_sequence = step
+        result = algo.generate_tests()
+    finally:
+        sc_mod.time = _REAL_TIME
+        ga_mod.time = _REAL_TIME
+    mi = budgets[0]
+    ok = w.started == 1 and w.finished == 1 and not w.late_activity
+    # every step is one iteration, whether it produced a test or failed: steps never exceed the iteration budget
+    ok = ok and w.completed == w.factory_calls and (mi < 0 or w.factory_calls <= mi)
+    if ok and w.exhausted_at is None:
+        ok = result.get_fitness() == 0.0
+    return reach(ok)
+
+
 def h_loop_remote(be: int, bs: int, p: int, n0: int, s0: int, n1: int, s1: int) -> bool:
     """
     pre: 0 <= be <= 3 and 1 <= bs <= 6 and 0 <= p <= 2
@@ -324,6 +379,7 @@ META = {
                   "after_search_iteration/...", "GenerationAlgorithmFactory.get_stopping_conditions",
                   "TestSuiteGenerationAlgorithmFactory.get_search_algorithm",
                   "RandomTestSuiteSearchAlgorithm.generate_tests", "RandomTestCaseSearchAlgorithm.generate_tests",
+                  "RandomAlgorithm.generate_tests (generate_sequence scripted)",
                   "MOSAAlgorithm.generate_tests/evolve", "DynaMOSAAlgorithm.generate_tests/evolve",
                   "MIOAlgorithm.generate_tests/evolve/_update_parameters", "WholeSuiteAlgorithm.generate_tests/evolve",
                   "TestCaseExecutor._before/_after_remote_test_case_execution", "ComputationCache.*",
@@ -371,6 +427,7 @@ def obligations(tier: str):
         Chx("resources_left", h_resources_left, timeout=T),
         Chx("time", h_time, timeout=T),
         Chx("loop_remote", h_loop_remote, timeout=T),
+        Chx("loop_random", h_loop_random, timeout=T, fix={"pmax": 2 if q else 4}, split={"cfg": [1, 15] if q else list(range(16))}),
     ]
     if q:
         for cfg in (1, 2, 4, 8):
